@@ -143,7 +143,7 @@ func ttxGenRow(r *fw.Rand, charset int, c map[string]int64) (cells [40]byte, run
 				code = byte(0x20 + fw.Pick(r, teletextNationalPositions[:]))
 				c["national_position_cells"]++
 			case 1:
-				code = byte(0x20 + r.Intn(0x5f)) // any G0 code but 0x7f
+				code = byte(0x20 + r.Intn(0x60)) // any G0 code, 0x7f included
 			default:
 				code = byte(fw.Pick(r, []rune("abcdefghijklmnopqrstuvwxyzABCDEFGHIJKLMNOPQRSTUVWXYZ0123456789 .,!?'")))
 			}
@@ -169,6 +169,22 @@ func ttxGenRow(r *fw.Rand, charset int, c map[string]int64) (cells [40]byte, run
 				put(byte(ch), false)
 			}
 		}
+		if r.P(1, 3) && pos < 34 {
+			// a second box on the same row (two speakers boxed separately): its text belongs to the line as well
+			put(0x0b, false)
+			// (whether the cells between the two boxes count as a blank is not settled by the property: such rows are
+			// compared on their characters, marker \x01)
+			cur = ttxRun{Style: st, Text: "\x01"}
+			for _, ch := range fw.Pick(r, []string{"two", "B: no", "x"}) {
+				put(byte(ch), false)
+				cur.Text += ttxDecodeCell(byte(ch), charset)
+			}
+			flush()
+			if r.Bool() {
+				put(0x0a, false)
+			}
+			c["rows_with_two_boxes"]++
+		}
 	}
 	return
 }
@@ -190,7 +206,7 @@ func ttxChars(runs []ttxRun) string {
 	var b strings.Builder
 	for _, r := range runs {
 		for _, ch := range r.Text {
-			if ch != 0 && !unicode.IsSpace(ch) {
+			if ch > 1 && !unicode.IsSpace(ch) {
 				b.WriteRune(ch)
 			}
 		}
@@ -209,6 +225,15 @@ func ttxBlanks(runs []ttxRun) int {
 		}
 	}
 	return n
+}
+
+func hasTwoBoxMarker(runs []ttxRun) bool {
+	for _, r := range runs {
+		if strings.Contains(r.Text, "\x01") {
+			return true
+		}
+	}
+	return false
 }
 
 func hasParityMarker(runs []ttxRun) bool {
@@ -626,6 +651,12 @@ func ttxCompare(exp, got []ttxExpCue) string {
 			return fmt.Sprintf("cue %d has %d lines, %d rows with boxed text were transmitted", k, len(g.rows), len(er))
 		}
 		for j := range er {
+			if hasTwoBoxMarker(er[j]) {
+				if a, b := ttxChars(er[j]), ttxChars(g.rows[j]); a != b {
+					return fmt.Sprintf("cue %d line %d (row with two boxes): characters %q, transmitted in the boxes %q", k, j, b, a)
+				}
+				continue
+			}
 			if hasParityMarker(er[j]) {
 				if a, b := ttxChars(er[j]), ttxChars(g.rows[j]); a != b {
 					return fmt.Sprintf("cue %d line %d (row with parity errors): characters %q, transmitted %q", k, j, b, a)
